@@ -171,7 +171,11 @@ func c12Shadowing(w *run.Worker) {
 func c12Typed(w *run.Worker) {
 	S, Id := rt.Str, rt.Id
 	patterns := []string{"%{WORD:w}", "%{NUMBER:n:int}", "%{NUMBER:n:float}", "%{WORD:b:bool}", "%{NOTSPACE:s:str}", "%{NOTSPACE:s:string}",
-		"%{INT:i:int} %{WORD:w:str}", "%{GREEDYDATA:g}", "^%{DATA:d} %{GREEDYDATA:g:int}$", "%{WORD:k}", "%{WORD:message}", "(?P<raw>l+)", "%{IP:ip}", "nomatch%{INT:z}"}
+		"%{INT:i:int} %{WORD:w:str}", "%{GREEDYDATA:g}", "^%{DATA:d} %{GREEDYDATA:g:int}$", "%{WORD:k}", "%{WORD:message}", "(?P<raw>l+)", "%{IP:ip}", "nomatch%{INT:z}",
+		// captures that match the empty string (optional group, alternation branch): stored as "", also over an existing key
+		"%{WORD:w}(?: %{INT:o1})?", "(?P<pre>x?)%{NOTSPACE:s}", "(?:%{INT:num}|%{WORD:wd})",
+		// typed captures landing on keys that already exist with another type (o1 is an int field, o2 a tag, o3 a nil field, o4 a float field)
+		"%{WORD:o1}", "%{NUMBER:o2:int}", "%{NUMBER:o3:int}", "%{WORD:o4:str}", "%{WORD:o4:bool}"}
 	texts := []any{"hello 42", "12", "3.5", "true", "abc", "  padded  ", "", " 7 x ", "1.2.3.4 ok", "99999999999999999999 big", int64(42), 2.5, false, nil}
 	for _, pat := range patterns {
 		for trim := 0; trim < 3; trim++ {
@@ -180,7 +184,7 @@ func c12Typed(w *run.Worker) {
 					if !w.Take() {
 						continue
 					}
-					pt := PointSpec{Meas: "m", Tags: map[string]string{"o2": "t"}, Fields: map[string]any{"o1": int64(5)}}
+					pt := PointSpec{Meas: "m", Tags: map[string]string{"o2": "t"}, Fields: map[string]any{"o1": int64(5), "o3": nil, "o4": 1.5}}
 					var pre []*rt.Node
 					str, isStr := tx.(string)
 					lit := func() *rt.Node {
@@ -223,7 +227,9 @@ func c12Typed(w *run.Worker) {
 					} else if trim == 2 {
 						args = append(args, rt.Bool(false))
 					}
-					stmts := append(pre, rt.Assign("=", Id("r"), rt.Call("grok", args...)), rt.Call("p", Id("r"), Id("k")))
+					// read back every capture key through a plain expression (value AND recorded type)
+					stmts := append(pre, rt.Assign("=", Id("r"), rt.Call("grok", args...)), rt.Call("p", Id("r"), Id("k")),
+						rt.Call("p", Id("o1"), Id("o2"), Id("o3"), Id("o4"), Id("w"), Id("n"), Id("s"), Id("pre"), Id("num"), Id("wd")))
 					c12Exec(w, "typed", stmts, pt, "")
 				}
 			}
@@ -387,7 +393,7 @@ func c12Time(w *run.Worker) {
 	}
 	// named zones with a summer date (daylight saving time in effect where the zone has it)
 	for _, b := range []string{"2021-07-15 12:00:00", "2021-03-28 01:30:00", "2021-10-31 01:30:00"} {
-		for _, z := range []string{"UTC", "Europe/London", "America/New_York", "Asia/Shanghai", "Asia/Kolkata", "Etc/GMT+5", "Local", "utc"} {
+		for _, z := range []string{"UTC", "Europe/London", "America/New_York", "Asia/Shanghai", "Asia/Kolkata", "Etc/GMT+5", "Etc/GMT-3", "America/Port-au-Prince", "Asia/Ust-Nera", "America/Blanc-Sablon", "Local", "utc"} {
 			for _, sit := range []int{sitField, sitVar} {
 				if !w.Take() {
 					continue
